@@ -256,6 +256,67 @@ def death_during_manager_msg(seed: int, n: int) -> List[List[dict]]:
 
 
 
+def routing_edges(seed: int, n: int) -> List[List[dict]]:
+    """corners of routing that interleavings sampled from the model rarely reach:
+    (1) a module's FIRST subscription and another module's publish are serviced in the SAME round, in either order;
+    (2) messages addressed to a module id: to a plain subscriber, to a logger that is itself subscribed (by type / to all), to a
+        module that is not subscribed, to an id nobody holds - the addressee gets ONE copy, loggers get theirs, nobody else;
+    (3) a logger whose connection is already dead when its CONNECT is acknowledged."""
+    out = []
+    # (1)
+    for what in ("type", "all"):
+        for logger in (0, 1):
+            for prior in (0, 1):
+                for order in (("b", "a"), ("a", "b")):
+                    for npub in (1, 2):
+                        b = monitor_setup()
+                        W = ["a", "b", "c"]
+                        b += [opn("a"), rnd("a"), opn("b"), rnd("b"), snd("a", con2(7, 0, "pub")), snd("b", con2(8, 0, "late", lg=logger)), rnd("", ["a", "b"], W)]
+                        if prior:
+                            b += [snd("b", sub(15, 8, 4321)), rnd("", ["b"], W)]
+                        b += [snd("b", sub(15, 8, ALL if what == "all" else 1234))]
+                        b += [snd("a", data(1234, 7, 0, 0, k + 1)) for k in range(npub)]
+                        b += [rnd("", list(order), W)]
+                        b += [snd("a", data(1234, 7, 0, 0, 9)), rnd("", ["a"], W)]
+                        out.append(b)
+    # (2)
+    for lsub in ("type", "all", "none"):
+        for dst in (0, 21, 20, 22, 24, 150):
+            for dhost in (0, 1):
+                b = monitor_setup()
+                cast = [("l1", 20, 1), ("p1", 21, 0), ("p2", 22, 0), ("l2", 24, 1), ("s", 5, 0)]
+                names = [c for c, _, _ in cast] + ["c"]
+                for c, mid, lg in cast:
+                    b += [opn(c), rnd(c)]
+                for c, mid, lg in cast:
+                    b += [snd(c, con2(mid, 0, c, lg=lg))]
+                b += [rnd("", [c for c, _, _ in cast], names)]
+                if lsub != "none":
+                    b += [snd("l1", sub(15, 20, ALL if lsub == "all" else 1234)), rnd("", ["l1"], names)]
+                b += [snd("p1", sub(15, 21, 1234)), rnd("", ["p1"], names), snd("p2", sub(15, 22, ALL)), rnd("", ["p2"], names)]
+                b += [snd("l2", sub(15, 24, ALL)), rnd("", ["l2"], names)]
+                b += [snd("s", data(1234, 5, dst, dhost, 1)), rnd("", ["s"], names)]
+                b += [snd("s", data(1234, 5, 0, 0, 2)), rnd("", ["s"], names)]
+                out.append(b)
+    # (3)
+    for ver in ("con2", "con"):
+        for after in ("subscribe", "connect", "publish"):
+            b = monitor_setup()
+            W = ["b", "c", "l"]
+            b += [opn("b"), rnd("b"), snd("b", con(7)), rnd("", ["b"], ["b", "c"]), snd("b", sub(15, 7, 1234)), rnd("", ["b"], ["b", "c"])]
+            b += [opn("l"), rnd("l"), snd("l", con2(30, 0, "lg", lg=1) if ver == "con2" else con(30, lg=1)), {"a": "Die", "c": "l"}, rnd("", ["l"], W)]
+            if after == "subscribe":
+                b += [snd("b", sub(15, 7, 4321)), rnd("", ["b"], ["b", "c"])]
+            elif after == "connect":
+                b += [opn("d"), rnd("d"), snd("d", con2(30, 0, "lg", lg=1)), rnd("", ["d"], ["b", "c", "d"])]
+            b += [snd("b", data(1234, 7, 0, 0, 3)), rnd("", ["b"], ["b", "c"])]
+            b += [snd("b", sub(15, 7, 777)), rnd("", ["b"], ["b", "c"])]
+            out.append(b)
+    if n and n < len(out):
+        out = random.Random(seed).sample(out, n)
+    return out
+
+
 def drops_with_logging(seed: int, n: int) -> List[List[dict]]:
     """receivers of a data type AND of the manager's own log messages (subscribed type by type, or to all types), one of them
     not writable while a publisher sends: whatever the manager logs about the drop is a message like any other - every two
